@@ -721,3 +721,20 @@ Definition ex_words (n : Z) : list Z := repeat 5 (Z.to_nat n).
 Definition ex_pred (nodes edges : Z) : predicate :=
   {| p_nodes := repeat {| n_edge_start := 0; n_program := repeat 6 32 |} (Z.to_nat nodes);
      p_edges := repeat 0 (Z.to_nat edges) |}.
+
+(* --- validity is monotone: every part of a valid contract is a valid contract --- *)
+Lemma check_contract_app_valid (a b : list predicate) :
+  check_contract (a ++ b) = Ok tt -> check_contract a = Ok tt /\ check_contract b = Ok tt.
+Proof.
+  rewrite !check_contract_iff. intros [Hl Hf]. apply Forall_app in Hf. destruct Hf as [Ha Hb].
+  unfold zlen in *. rewrite app_length in Hl. repeat split; try assumption; lia.
+Qed.
+
+Lemma check_contract_perm (a b : list predicate) :
+  Permutation a b -> (check_contract a = Ok tt <-> check_contract b = Ok tt).
+Proof.
+  intros P. rewrite !check_contract_iff. unfold zlen. rewrite (Permutation_length P).
+  split; intros [Hl Hf]; split; try assumption.
+  - eapply Permutation_Forall; eassumption.
+  - eapply Permutation_Forall; [apply Permutation_sym|]; eassumption.
+Qed.
